@@ -316,7 +316,7 @@ Definition run_prio1 (args : list Z) : list Z :=
       let fx := negb (fixed =? 0) in
       let s0 := Prio1.init_state (fun _ => base) cfg (Z.to_N h) (fun ch => Nat.ltb ch 1000) (Z.to_N ocap) in
       let '(s1, amb0) := Prio1Sim.sched_run fx (fun _ => base) (Z.to_nat fuel) false None false s0 in
-      let '(out, smf) := run_ops1 fx base (Z.to_nat fuel) (fold_right insert_nat [] (map snd cfg)) (Prio1Sim.mkPsim s1 [] 1 None amb0) (quads ops) in
+      let '(out, smf) := run_ops1 fx base (Z.to_nat fuel) (fold_right insert_nat [] (map snd cfg)) (Prio1Sim.mkPsim s1 [] 1 None amb0 (map fst cfg)) (quads ops) in
       let fin := match Prio1.pcs (Prio1Sim.ps_st smf) with
                  | Prio1.Done None => [1; 0]
                  | Prio1.Done (Some (Prio1.EDiv DividerBad)) => [1; 1]
